@@ -106,8 +106,46 @@ class _vint(sym.sym_int):
         return sym.sym_int.__new__(cls, x, *a)
 
 
+class _SymRangeMeta(type):
+    def __instancecheck__(cls, inst):
+        return isinstance(inst, range)
+
+
+class sym_range(metaclass=_SymRangeMeta):
+    """stands in for `range` inside pyrtl.helperfuncs: membership of a symbolic integer is a solver condition (the builtin would
+    compare it with every element in turn); everything else behaves like the builtin"""
+    def __new__(cls, *a):
+        r = range(*a)
+        self = object.__new__(cls)
+        self.r = r
+        return self
+
+    def __contains__(self, x):
+        r = self.r
+        if not sym.is_sym(x):
+            return x in r
+        if r.step == 1:
+            return (x >= r.start) & (x < r.stop) if len(r) else False
+        if r.step > 0:
+            return (x >= r.start) & (x < r.stop) & (((x - r.start) % r.step) == 0) if len(r) else False
+        return (x <= r.start) & (x > r.stop) & (((r.start - x) % (-r.step)) == 0) if len(r) else False
+
+    def __iter__(self):
+        return iter(self.r)
+
+    def __len__(self):
+        return len(self.r)
+
+    def __getitem__(self, i):
+        return self.r[i]
+
+    def __reversed__(self):
+        return reversed(self.r)
+
+
 def henv(bitstr=False):
-    return stubs(H, bin=sym.sym_bin, hex=sym.sym_hex, len=sym.sym_len, int=_vint, str=sym_str_bit if bitstr else sym_str)
+    return stubs(H, bin=sym.sym_bin, hex=sym.sym_hex, len=sym.sym_len, int=_vint, str=sym_str_bit if bitstr else sym_str,
+                 range=sym_range)
 
 
 def valvar(name='v', w=VW):
@@ -356,6 +394,37 @@ def do_format_enum_history(case, ob, site):
         ob.fact('enum-history:missing-enum-refused-with-PyrtlError', refused, site + ':enum-missing')
 
 
+def do_const_badwidth(case, ob, site):
+    """an explicit bitwidth that is not a positive integer is refused (PyrtlError) whatever the value is: symbolic ints, and
+    Verilog-style strings that carry their own width"""
+    b = case['b']
+    v = valvar('v', 8)
+    ex = lambda m: {'value': m.eval(v.t, model_completion=True).as_signed_long()}
+
+    def body():
+        pyrtl.reset_working_block()
+        return pyrtl.Const(v, bitwidth=b)
+    with henv():
+        paths = explore(body)
+    ob.paths += len(paths)
+    for p in paths:
+        if p.exc is None:
+            ob.prove('Const(v, bitwidth=%d)-is-refused' % b, z3.Not(p.cond()), [], None, site=site + ':accepted', extract=ex)
+        elif not isinstance(p.exc, pyrtl.PyrtlError):
+            ob.prove('Const(v, bitwidth=%d)-raises-PyrtlError(not %s)' % (b, type(p.exc).__name__), z3.Not(p.cond()), [], None,
+                     site=site + ':wrong-exception', extract=ex)
+    for text in ("2'b01", "4'd8", "1'b1", "-3'd2"):
+        try:
+            pyrtl.reset_working_block()
+            c_ = pyrtl.Const(text, bitwidth=b)
+            res = 'accepted as %d/%d' % (c_.val, c_.bitwidth)
+        except pyrtl.PyrtlError:
+            res = None
+        except Exception as e:
+            res = 'raised %s: %s' % (type(e).__name__, e)
+        ob.fact('Const(%r, bitwidth=%d)-is-refused-with-PyrtlError' % (text, b), res is None, site + ':string', detail=res)
+
+
 def do_twos(case, ob, site):
     b = case['b']
     v = valvar('v', b + 3)
@@ -454,7 +523,7 @@ def do_bitpattern(case, ob, site):
 
 
 KINDS = {'infer': do_infer, 'const': do_const, 'vstr': do_vstr, 'signedint': do_signedint, 'format': do_format,
-         'format_enum': do_format_enum, 'format_enum_history': do_format_enum_history, 'twos': do_twos, 'bitpattern': do_bitpattern}
+         'format_enum': do_format_enum, 'format_enum_history': do_format_enum_history, 'const_badwidth': do_const_badwidth, 'twos': do_twos, 'bitpattern': do_bitpattern}
 
 
 def bounds(tier):
@@ -484,6 +553,8 @@ def cases(tier, seed):
             out.append({'k': 'format', 'f': f, 'b': b})
     out.append({'k': 'format_enum'})
     out.append({'k': 'format_enum_history'})
+    for b_ in (0, -1, -8):
+        out.append({'k': 'const_badwidth', 'b': b_})
     for b in range(1, 11 if tier == 'quick' else 17):
         out.append({'k': 'twos', 'b': b})
     L = 6 if tier == 'quick' else 8
@@ -573,14 +644,15 @@ def run_case(case, ob, tier):
 def replay(cex):
     c = cex['case']
     k = c['k']
-    if k in ('format_enum', 'format_enum_history'):
+    if k in ('format_enum', 'format_enum_history') or (k == 'const_badwidth' and cex.get('structural')):
         from ..core import Obligations
         ob = Obligations(PROP, c, 20000)
         KINDS[k](c, ob, site_of(c))
         bad = [(x['obligation'], x.get('detail')) for x in ob.sat]
         return bool(bad), 'failing on the real helpers (plain ints and strings): %r' % bad[:4]
     val = cex.get('value')
-XX
+    if val is None and not cex.get('structural') and k != 'bitpattern':
+        return False, 'no model value recorded'
     try:
         if k in ('infer', 'const'):
             b, signed = c['b'], c['signed']
